@@ -149,6 +149,10 @@ def specClass (cfg : Nat → Cfg) (b : Nat) (o : Obs) : Option String :=
     match ghost with
     | some a => some (if (cfg a).permanent then "active-not-started-permanent" else "active-not-started")
     | none => some "started-not-listed"
+  else if !Spec.startedOnlyRegistered cfg o.hist then
+    some (match o.op with
+      | .tick => "retry-tick-starts-unregistered-adapter"
+      | _ => "start-of-unregistered-adapter")
   else if !Spec.discipline o.hist then
     some (match o.hist.find? (fun | .op _ => false | _ => true) with
       | some (.stop _) => "close-of-not-started"
